@@ -15,7 +15,9 @@ RECURSIVE Restrict(_, _)
 Restrict(s, S) == IF s = <<>> THEN <<>>
                   ELSE IF Head(s) \in S THEN <<Head(s)>> \o Restrict(Tail(s), S) ELSE Restrict(Tail(s), S)
 Prefix(s, n) == SubSeq(s, 1, n)
-IndexOf(s, x) == CHOOSE i \in 1..Len(s) : s[i] = x
+\* (total: 0 when x does not occur -- a projection may be inconsistent, the monitor must still give a verdict)
+IndexOf(s, x) == IF \E i \in 1..Len(s) : s[i] = x THEN CHOOSE i \in 1..Len(s) : s[i] = x ELSE 0
+MostRecent(lru, k) == Len(lru) > 0 /\ lru[Len(lru)] = k
 
 LInit(cfg) == [budget |-> cfg.budget, lru |-> <<>>, ent |-> <<>>, usage |-> 0]
 
@@ -61,19 +63,20 @@ Clauses(st, e) ==
             Len(p.lru) = Cardinality(SeqToSet(p.lru)) /\ SeqToSet(p.lru) = post /\ Len(p.ent) = Cardinality(post)>>,
         <<"only_touched_keys_appear", post \subseteq pre \cup T>>,
         <<"untouched_entries_unchanged", \A x \in (post \cap surv) : EntOf(p.ent, x) = EntOf(st.ent, x)>>,
-        <<"evicted_are_the_least_recently_used", E = SeqToSet(Prefix(P, Cardinality(E)))>>,
+        <<"evicted_are_the_least_recently_used", Cardinality(E) <= Len(P) /\ E = SeqToSet(Prefix(P, Cardinality(E)))>>,
         <<"evictions_only_when_room_is_needed",
             E # {} => /\ IsPut(e)
+                      /\ Cardinality(E) <= Len(P)
                       /\ LET x == P[Cardinality(E)] IN p.usage + EntOf(st.ent, x).size > B>>,
         <<"relative_recency_of_untouched_preserved", Restrict(p.lru, surv) = Restrict(P, post)>>,
         <<"new_entries_are_most_recent",
-            \A n \in post \ pre : \A s \in post \cap surv : IndexOf(p.lru, s) < IndexOf(p.lru, n)>> >>
+            \A n \in post \ pre : \A s \in post \cap surv : IndexOf(p.lru, n) > 0 /\ IndexOf(p.lru, s) < IndexOf(p.lru, n)>> >>
       specific ==
         CASE e.op = "Memoize" /\ e.exc = "" /\ ~e.ro -> <<
                <<"written_value_resident_if_it_fits",
                    e.size <= B => (k \in post /\ EntOf(p.ent, k).size = e.size /\ EntOf(p.ent, k).hasv)>>,
                <<"oversize_value_not_resident_nor_a_stale_one_for_its_key", e.size > B => ~HasValue(p.ent, k)>>,
-               <<"used_key_is_most_recent", k \in post => p.lru[Len(p.lru)] = k>> >>
+               <<"used_key_is_most_recent", k \in post => MostRecent(p.lru, k)>> >>
           [] e.op = "ReadResult" /\ e.exc = "" -> <<
                <<"resident_value_served_without_store_read", HasValue(st.ent, k) => e.reads = 0>>,
                <<"hit_leaves_entry_unchanged", HasValue(st.ent, k) => (k \in post /\ EntOf(p.ent, k) = EntOf(st.ent, k))>>,
@@ -81,10 +84,10 @@ Clauses(st, e) ==
                    (~HasValue(st.ent, k) /\ e.reads > 0 /\ e.size <= B /\ e.cacheable) =>
                         (k \in post /\ EntOf(p.ent, k).size = e.size /\ EntOf(p.ent, k).hasv)>>,
                <<"oversize_value_not_resident_nor_a_stale_one_for_its_key", e.size > B => ~HasValue(p.ent, k)>>,
-               <<"used_key_is_most_recent", (k \in post /\ e.size <= B) => p.lru[Len(p.lru)] = k>> >>
+               <<"used_key_is_most_recent", (k \in post /\ e.size <= B) => MostRecent(p.lru, k)>> >>
           [] e.op = "IsMemoized" /\ e.exc = "" -> <<
                <<"query_does_not_change_residency", post = pre /\ E = {}>>,
-               <<"used_key_is_most_recent", k \in post => p.lru[Len(p.lru)] = k>> >>
+               <<"used_key_is_most_recent", k \in post => MostRecent(p.lru, k)>> >>
           [] e.op = "IsAllMemoized" /\ e.exc = "" -> <<
                <<"query_does_not_change_residency", post = pre /\ E = {}>> >>
           [] e.op \in {"ForgetCall", "ForgetFunction", "ForgetEverything"} /\ e.exc = "" /\ ~e.ro -> <<
